@@ -49,6 +49,12 @@ class C11(Prop):
         for q in (63, 64, 65):
             for name in ("H", "S", "X", "Y", "Z"):
                 yield {"k": "action", "name": name, "qubits": [q], "n": 66, "via": ("gate", "circuit", "clifford_circuit")[q % 3], "pkg": "py"}
+        # narrow numpy integer qubit labels on wide registers (int8 holds 0..127, uint8 0..255: twice the label must not wrap)
+        for q, ty, n in ((64, "int8", 96), (70, "int8", 96), (95, "int8", 96), (127, "int8", 130), (100, "uint8", 130), (129, "uint8", 130), (200, "int16", 201)):
+            for name in ("H", "S", "X"):
+                yield {"k": "action", "name": name, "qubits": [q], "n": n, "via": ("gate", "circuit", "clifford_circuit")[q % 3], "qtype": ty, "pkg": "py"}
+        for c, t, ty, n in ((64, 65, "int8", 96), (100, 3, "int8", 130), (3, 127, "int8", 130), (128, 129, "uint8", 130)):
+            yield {"k": "action", "name": "CNOT", "qubits": [c, t], "n": n, "via": "gate", "qtype": ty, "pkg": "py"}
         yield {"k": "ctable"}
         for n in (1, 2, 3):
             for q in range(n):
